@@ -34,7 +34,7 @@ DEST_DIM = {"nodes": "n_node", "edge centers": "n_edge", "face centers": "n_face
 
 def cases(tier, seed):
     rng = np.random.default_rng([seed, 1212])
-    n = 110 if tier == "quick" else 2600
+    n = 110 if tier == "quick" else 10000
     coincide = [{"family": "polyhedron", "name": nm, "ops": []} for nm in ("tetrahedron", "pyramid", "pentapyramid")]
     for i in range(n):
         r = i % 6
